@@ -789,3 +789,146 @@ def rt_argcheck_grid(first_only=False, count=None):
     if count is not None:
         count.append(n)
     return fails
+
+
+# --------------------------------------------------------------------------------------
+# C15: rows are tagged with their index; the exact rows seen by every loss call are recorded
+def rt_split(n, val_prop, seed=0):
+    from flowjax.train.train_utils import train_val_split
+
+    x = jnp.arange(n, dtype=float)[:, None] * jnp.ones((1, 2))
+    c = jnp.arange(n, dtype=float)[:, None] + 0.0
+    (tx, tc), (vx, vc) = train_val_split(jax.random.PRNGKey(seed), [x, c], val_prop=val_prop)
+    tr, va = [int(v) for v in tx[:, 0]], [int(v) for v in vx[:, 0]]
+    probs = []
+    if sorted(tr + va) != list(range(n)):
+        dup = sorted(set(tr) & set(va))
+        lost = sorted(set(range(n)) - set(tr) - set(va))
+        probs.append(f"train ({len(tr)} rows) and validation ({len(va)} rows) do not partition the {n} rows: in both {dup}, in neither {lost}")
+    if len(va) != round(val_prop * n):
+        probs.append(f"{len(va)} validation rows for val_prop={val_prop}, n={n} (expected round(val_prop*n) = {round(val_prop * n)})")
+    if [int(v) for v in tc[:, 0]] != tr or [int(v) for v in vc[:, 0]] != va:
+        probs.append("x rows and condition rows are permuted differently")
+    return [f"train_val_split(n={n}, val_prop={val_prop}): {p}" for p in probs]
+
+
+def rt_batches(n, bs):
+    from flowjax.train.train_utils import get_batches
+
+    x = jnp.arange(n, dtype=float)[:, None] * jnp.ones((1, 2))
+    c = jnp.arange(n, dtype=float)
+    bx, bc = get_batches([x, c], bs)
+    rows = [int(v) for v in np.asarray(bx)[:, :, 0].ravel()]
+    ebs = min(bs, n)
+    probs = []
+    if rows != list(range((n // ebs) * ebs)):
+        probs.append(f"batches use rows {rows}; expected the leading {(n // ebs) * ebs} rows in order (only a trailing remainder < batch size skipped)")
+    if [int(v) for v in np.asarray(bc).ravel()] != rows:
+        probs.append("x and condition batches are not aligned")
+    if bx.shape[:2] != (n // ebs, ebs):
+        probs.append(f"batch array shape {bx.shape}")
+    return [f"get_batches(n={n}, batch_size={bs}): {p}" for p in probs]
+
+
+def rt_fit_rows(n, bs, val_prop, with_cond, epochs, seed=0):
+    import flowjax.train.data_fit as df
+
+    log, state = [], dict(in_step=False)
+
+    def record(xr, cr, key, in_step):
+        log.append(([int(v) for v in np.asarray(xr).ravel()], None if cr is None else [int(v) for v in np.asarray(cr).ravel()], tuple(int(v) for v in np.asarray(key).ravel()), bool(in_step)))
+
+    def loss_fn(params, static, x, condition=None, key=None):
+        flag = jnp.asarray(state["in_step"])
+        kd = jax.random.key_data(key) if hasattr(jax.random, "key_data") and jnp.issubdtype(key.dtype, jax.dtypes.prng_key) else key
+        if condition is None:
+            jax.debug.callback(lambda a, k, f: record(a, None, k, f), x[:, 0], kd, flag, ordered=True)
+        else:
+            jax.debug.callback(lambda a, b, k, f: record(a, b, k, f), x[:, 0], condition[:, 0], kd, flag, ordered=True)
+        return 0.0 * params["v"] + jnp.sum(x) * 0.0
+
+    orig = df.step
+
+    def step_wrapper(*a, **k):
+        state["in_step"] = True
+        try:
+            out = orig(*a, **k)
+            jax.block_until_ready(out)
+            return out
+        finally:
+            state["in_step"] = False
+
+    x = jnp.arange(n, dtype=float)[:, None] * jnp.ones((1, 2))
+    cond = jnp.arange(n, dtype=float)[:, None] if with_cond else None
+    df.step = step_wrapper
+    try:
+        with jax.disable_jit():
+            df.fit_to_data(jax.random.PRNGKey(seed), {"v": jnp.zeros(())}, x, condition=cond, loss_fn=loss_fn, max_epochs=epochs, max_patience=epochs + 1, batch_size=bs,
+                           val_prop=val_prop, optimizer=counting_optimizer(), show_progress=False)
+    finally:
+        df.step = orig
+    probs = []
+    n_val = round(val_prop * n)
+    n_tr = n - n_val
+    train_seen, val_seen, keys = set(), set(), []
+    for rows, crow, key, in_step in log:
+        keys.append(key)
+        if crow is not None and crow != rows:
+            probs.append(f"a loss call paired x rows {rows} with condition rows {crow}")
+        (train_seen if in_step else val_seen).update(rows)
+    if train_seen & val_seen:
+        probs.append(f"rows {sorted(train_seen & val_seen)} were used both in gradient steps and for validation")
+    if len(set(keys)) != len(keys):
+        probs.append("two loss calls received the same PRNG key")
+    ebs_t, ebs_v = min(bs, n_tr), min(bs, n_val)
+    per_epoch_t, per_epoch_v = (n_tr // ebs_t), (n_val // ebs_v)
+    calls_t = [r for r, _c, _k, s in log if s]
+    if len(calls_t) != per_epoch_t * epochs:
+        probs.append(f"{len(calls_t)} gradient steps; expected {per_epoch_t} per epoch x {epochs}")
+    for e in range(epochs):
+        rows_e = [v for r in calls_t[e * per_epoch_t:(e + 1) * per_epoch_t] for v in r]
+        if len(set(rows_e)) != len(rows_e):
+            probs.append(f"epoch {e}: a training row was used more than once {rows_e}")
+        if n_tr - len(rows_e) >= ebs_t or len(rows_e) > n_tr:
+            probs.append(f"epoch {e}: used {len(rows_e)} of {n_tr} training rows with batch size {ebs_t}")
+    if len(train_seen | val_seen) > n or (train_seen | val_seen) - set(range(n)):
+        probs.append("rows outside the dataset")
+    if len(train_seen) > n_tr or len(val_seen) > n_val:
+        probs.append(f"{len(train_seen)} distinct rows took part in gradient steps but the training part has {n_tr} rows (validation part {n_val}, seen {len(val_seen)})")
+    return [f"fit_to_data(n={n}, batch_size={bs}, val_prop={val_prop}, condition={with_cond}, epochs={epochs}): {p}" for p in probs], log
+
+
+def rt_c15_grid(tier="quick", first_only=False, count=None):
+    fails, n_ev = [], 0
+    ns = range(2, 61) if tier == "thorough" else list(range(2, 26)) + [31, 40, 47, 60]
+    props = [0.05, 0.1, 0.2, 0.25, 0.3, 0.5, 0.7, 0.9] if tier == "thorough" else [0.1, 0.25, 0.3, 0.5, 0.9]
+    for n in ns:
+        for p in props:
+            if round(p * n) in (0, n):
+                continue
+            n_ev += 1
+            for f in rt_split(n, p):
+                fails.append(dict(what=f, case=dict(n=n, val_prop=p)))
+        for bs in sorted({1, 2, 3, n - 1, n, n + 5}):
+            if bs >= 1:
+                n_ev += 1
+                for f in rt_batches(n, bs):
+                    fails.append(dict(what=f, case=dict(n=n, batch_size=bs)))
+        if first_only and fails:
+            return fails
+    fit_cases = [(5, 2, 0.4, True, 2), (9, 3, 0.3, False, 2), (15, 4, 0.1, True, 1), (12, 20, 0.5, True, 2), (7, 1, 0.3, True, 1), (25, 6, 0.1, True, 2)]
+    if tier == "thorough":
+        fit_cases += [(n, bs, p, c, 2) for n in (6, 10, 17, 30) for bs in (1, 3, 7) for p in (0.2, 0.5) for c in (True, False)]
+    for n, bs, p, c, ep in fit_cases:
+        n_ev += 1
+        f1, log1 = rt_fit_rows(n, bs, p, c, ep)
+        _f2, log2 = rt_fit_rows(n, bs, p, c, ep)
+        if log1 != log2:
+            f1.append(f"fit_to_data(n={n}, ...): the same key did not reproduce the same run")
+        for f in f1:
+            fails.append(dict(what=f, case=dict(n=n, batch_size=bs, val_prop=p, condition=c, epochs=ep)))
+        if first_only and fails:
+            return fails
+    if count is not None:
+        count.append(n_ev)
+    return fails
